@@ -328,6 +328,104 @@ impl FriProof {
     }
 }
 
+// ---------------------------------------------------------------------------------------------------------------------
+// Context (air/src/proof/context.rs): trace info, the claimed field modulus behind a one-byte length prefix (non-empty), the proof
+// options; the reader enforces Context::new's size limits (trace length and LDE domain size at most 2^32 - 1 ... see below).
+// TraceInfo and ProofOptions are abstract components here (their headers are complete Kani contracts of C12 / C06).
+#[derive(PartialEq, Eq, Structural)]
+pub struct TraceInfo(pub u64);
+#[derive(PartialEq, Eq, Structural)]
+pub struct ProofOptions(pub u64);
+pub uninterp spec fn enc_ti(x: TraceInfo) -> Seq<u8>;
+pub uninterp spec fn dec_ti(s: Seq<u8>) -> Option<(TraceInfo, Seq<u8>)>;
+pub uninterp spec fn enc_po(x: ProofOptions) -> Seq<u8>;
+pub uninterp spec fn dec_po(s: Seq<u8>) -> Option<(ProofOptions, Seq<u8>)>;
+pub uninterp spec fn ti_length(x: TraceInfo) -> usize;
+pub uninterp spec fn po_blowup(x: ProofOptions) -> usize;
+impl TraceInfo {
+    #[verifier::external_body]
+    pub fn read_from(source: &mut Reader) -> (r: Result<TraceInfo, DeserializationError>)
+        ensures r is Ok <==> dec_ti(old(source).rem@) is Some,
+                r is Ok ==> r->Ok_0 == dec_ti(old(source).rem@)->Some_0.0 && final(source).rem@ == dec_ti(old(source).rem@)->Some_0.1,
+    { unimplemented!() }
+    #[verifier::external_body]
+    pub fn write_into(&self, target: &mut Writer) ensures final(target).out@ == old(target).out@ + enc_ti(*self) { unimplemented!() }
+    #[verifier::external_body]
+    pub fn length(&self) -> (r: usize) ensures r == ti_length(*self) { unimplemented!() }
+}
+impl ProofOptions {
+    #[verifier::external_body]
+    pub fn read_from(source: &mut Reader) -> (r: Result<ProofOptions, DeserializationError>)
+        ensures r is Ok <==> dec_po(old(source).rem@) is Some,
+                r is Ok ==> r->Ok_0 == dec_po(old(source).rem@)->Some_0.0 && final(source).rem@ == dec_po(old(source).rem@)->Some_0.1,
+                // options accepted by the reader have a blowup factor of at most 128 (Kani: air_options_read_total_contract)
+                r is Ok ==> po_blowup(r->Ok_0) <= 128,
+    { unimplemented!() }
+    #[verifier::external_body]
+    pub fn write_into(&self, target: &mut Writer) ensures final(target).out@ == old(target).out@ + enc_po(*self) { unimplemented!() }
+    // a blowup factor accepted by ProofOptions::read_from is at most 128 (Kani: air_options_*)
+    #[verifier::external_body]
+    pub fn blowup_factor(&self) -> (r: usize) ensures r == po_blowup(*self), r <= 128 { unimplemented!() }
+}
+pub struct Context { pub trace_info: TraceInfo, pub field_modulus_bytes: Vec<u8>, pub options: ProofOptions }
+pub open spec fn dec_v8(s: Seq<u8>) -> Option<(Seq<u8>, Seq<u8>)> {
+    match dec_u8(s) { None => None, Some((n, r)) => if n >= 1 && r.len() >= n { Some((r.take(n as int), r.skip(n as int))) } else { None } }
+}
+pub open spec fn limits_ok(t: TraceInfo, o: ProofOptions) -> bool {
+    ti_length(t) <= u32::MAX && ti_length(t) * po_blowup(o) <= u32::MAX
+}
+pub open spec fn dec_context(s: Seq<u8>) -> Option<((TraceInfo, Seq<u8>, ProofOptions), Seq<u8>)> {
+    match dec_ti(s) { None => None, Some((t, r1)) =>
+    match dec_v8(r1) { None => None, Some((m, r2)) =>
+    match dec_po(r2) { None => None, Some((o, r3)) => if limits_ok(t, o) { Some(((t, m, o), r3)) } else { None } }}}
+}
+impl Context {
+    //@@ source air/src/proof/context.rs
+    //@@ extract within="impl Serializable for Context" anchor="fn write_into<W: ByteWriter>(&self, target: &mut W)"
+    //@@ rewrite-re "assert!\(([^;]+)\);" => "if !(\1) { must_not_panic(); }"
+    pub fn write_into(&self, target: &mut Writer)
+        requires self.field_modulus_bytes.len() < u8::MAX
+        ensures final(target).out@ == old(target).out@ + enc_ti(self.trace_info) + enc_u8(self.field_modulus_bytes.len() as u8) + self.field_modulus_bytes@ + enc_po(self.options)
+    {
+        /*@@body*/
+    }
+
+    //@@ extract within="impl Deserializable for Context" anchor="fn read_from<R: ByteReader>(source: &mut R) -> Result<Self, DeserializationError>"
+    //@@ rewrite-re "DeserializationError::InvalidValue\(\s*\"[^\"]*\"\s*\.to_string\(\),?\s*\)" => "DeserializationError::InvalidValue(err_text())"
+    //@@ before "if trace_length > u32::MAX as usize"
+    //@@|        proof {
+    //@@|            assert(trace_length <= u32::MAX ==> trace_length * po_blowup(options) <= 0x7FFF_FFFF_80) by (nonlinear_arith)
+    //@@|                requires po_blowup(options) <= 128, trace_length >= 0;
+    //@@|        }
+    pub fn read_from(source: &mut Reader) -> (r: Result<Context, DeserializationError>)
+        ensures
+            r is Ok <==> dec_context(old(source).rem@) is Some,
+            r is Ok ==> dec_context(old(source).rem@) == Some(((r->Ok_0.trace_info, r->Ok_0.field_modulus_bytes@, r->Ok_0.options), final(source).rem@)),
+    {
+        /*@@body*/
+    }
+}
+proof fn theorem_context_roundtrip(c: Context, rest: Seq<u8>)
+    requires
+        prefix_rt(), 1 <= c.field_modulus_bytes.len() < u8::MAX, limits_ok(c.trace_info, c.options),
+        forall|x: TraceInfo, r: Seq<u8>| dec_ti(#[trigger] (enc_ti(x) + r)) == Some((x, r)),
+        forall|x: ProofOptions, r: Seq<u8>| dec_po(#[trigger] (enc_po(x) + r)) == Some((x, r)),
+        forall|x: u8, r: Seq<u8>| dec_u8(#[trigger] (enc_u8(x) + r)) == Some((x, r)),
+    ensures
+        dec_context(enc_ti(c.trace_info) + enc_u8(c.field_modulus_bytes.len() as u8) + c.field_modulus_bytes@ + enc_po(c.options) + rest)
+            == Some(((c.trace_info, c.field_modulus_bytes@, c.options), rest)),
+{
+    let m = c.field_modulus_bytes@;
+    let t2 = enc_po(c.options) + rest;
+    let t1 = enc_u8(m.len() as u8) + (m + t2);
+    assert(enc_ti(c.trace_info) + enc_u8(m.len() as u8) + m + enc_po(c.options) + rest =~= enc_ti(c.trace_info) + t1);
+    assert(dec_ti(enc_ti(c.trace_info) + t1) == Some((c.trace_info, t1)));
+    assert(dec_u8(enc_u8(m.len() as u8) + (m + t2)) == Some((m.len() as u8, m + t2)));
+    assert((m + t2).take(m.len() as int) =~= m);
+    assert((m + t2).skip(m.len() as int) =~= t2);
+    assert(dec_po(enc_po(c.options) + rest) == Some((c.options, rest)));
+}
+
 proof fn containerv_canary_must_fail(b: Seq<u8>, rest: Seq<u8>)
     requires prefix_rt()
     ensures dec_v16(enc_u16(b.len() as u16) + b + rest) == Some((b, rest))
